@@ -388,8 +388,10 @@ class InterpAkima(InterpAlgorithm):
                 w2 = abs_complex(m4 - m3)
                 w31 = abs_complex(m2 - m1)
 
-        # Special case to avoid divide by zero.
-        jj1 = np.where(np.atleast_1d(w2 + w31) > eps)
+        # Special case to avoid divide by zero. The threshold is relative to the slopes so that
+        # weights at round-off level (nearly collinear data) also fall back to the mean slope.
+        tiny = eps + 1e-12 * (np.abs(m2.real) + np.abs(m3.real))
+        jj1 = np.where(np.atleast_1d(w2 + w31) > tiny)
         b = 0.5 * (m2 + m3)
         if compute_local_train:
             db_dv = 0.5 * (dm2_dv + dm3_dv)
@@ -440,7 +442,8 @@ class InterpAkima(InterpAlgorithm):
                 w4 = abs_complex(m3 - m2)
 
         # Special case to avoid divide by zero.
-        jj2 = np.where(np.atleast_1d(w32 + w4) > eps)
+        tiny = eps + 1e-12 * (np.abs(m3.real) + np.abs(m4.real))
+        jj2 = np.where(np.atleast_1d(w32 + w4) > tiny)
         bp1 = 0.5 * (m3 + m4)
         if compute_local_train:
             dbp1_dv = 0.5 * (dm3_dv + dm4_dv)
